@@ -130,6 +130,21 @@ struct __redu_operands {
   T right;
 };
 
+template <typename T>
+inline T __redu_abs(T value) {
+  return (value < 0) ? -value : value;
+}
+
+template <typename T>
+inline T __redu_max(__redu_operands<T> v) {
+  return (v.left > v.right) ? v.left : v.right;
+}
+
+template <typename T>
+inline T __redu_min(__redu_operands<T> v) {
+  return (v.left < v.right) ? v.left : v.right;
+}
+
 inline long __redu_floordiv(__redu_operands<long> v) {
   long q = v.left / v.right;
   if ((v.left % v.right != 0) && ((v.left < 0) != (v.right < 0))) {
